@@ -27,7 +27,7 @@ def case(draw, tier):
     for _ in range(n):
         op = draw(st.sampled_from(["S", "BS", "Vac", "D", "MeasureX", "MeasureFock", "R", "Z"]))
         k = draw(st.sampled_from([1, 1, 1, 2, 2, 3]))
-        modes = [S.F1(A.Num("int", str(draw(st.integers(0, nmodes - 1))))) for _ in range(k)]
+        modes = [S.F1(A.Num("int", str(draw(st.one_of(st.integers(0, nmodes - 1), st.integers(0, nmodes - 1), st.sampled_from([1, 10, 11, 12, 2, 20, 21, 100])))))) for _ in range(k)]
         args = None
         c = draw(st.integers(0, 5))
         if c >= 2:
@@ -52,7 +52,8 @@ def _arg(draw, nmodes):
         return S.F1(A.Num("float", "0.5"))
     if c == 1:
         return S.F1(A.Num("int", str(draw(st.integers(0, 9)))))
-    regs = draw(st.lists(st.integers(0, nmodes), min_size=1, max_size=3, unique=True))
+    regs = draw(st.lists(st.one_of(st.integers(0, nmodes), st.integers(0, nmodes), st.sampled_from([10, 11, 12, 20, 21, 100, 101])),
+                         min_size=1, max_size=3, unique=True))
     operands = [A.Operand(draw(st.sampled_from(["", "-"])), A.Reg("q%d" % r)) for r in regs]
     ops = [draw(st.sampled_from(["+", "*", "-"])) for _ in regs[1:]]
     if draw(st.booleans()):
@@ -106,7 +107,8 @@ def check(c):
     except Exception as e2:
         out.violations.append(Violation(exc_bucket("to_DiGraph", e2), "to_DiGraph raised %s: %s\n%s" % (type(e2).__name__, e2, text)))
         return out
-    verify(p, G, c["prio"], text, out.violations, "")
+    MD = model_deps(script)
+    verify(p, G, c["prio"], text, out.violations, "", MD)
     if out.violations:
         return out
     if canon.snapshot(p) != before:
@@ -117,21 +119,35 @@ def check(c):
         p2 = copy.deepcopy(p)
         p2.operations.append({"op": "Extra", "modes": [0]})
         verify(p2, to_DiGraph(p2), c["prio"][:1], text + "\n(+ operation 'Extra | 0' appended through the API to a deep copy, after the conversion above)",
-               out.violations, "after-modification|")
+               out.violations, "after-modification|", MD + [{0}])
         if not out.violations and p.is_template():
             out.classes.append("template-then-instance")
             inst = p(**{name: 0.3 + 0.1 * i for i, name in enumerate(sorted(p.parameters))})
             verify(inst, to_DiGraph(inst), c["prio"][:1], text + "\n(instance of the template above, converted after the template was converted)",
-                   out.violations, "instance-after-template|")
+                   out.violations, "instance-after-template|", MD)
     except Exception as e3:
         out.violations.append(Violation(exc_bucket("derived-program", e3), "%s: %s\n%s" % (type(e3).__name__, e3, text)))
     return out
 
 
-def verify(p, G, prios, text, v, tag):
+def model_deps(script):
+    """Wires of every statement as WRITTEN in the script: its modes and the registers occurring in its arguments
+    (independent of what the loaded transforms list)."""
+    out = []
+    for st_ in script.items:
+        d = {int(m.operands[0].prim.text) for m in st_.modes}
+        if st_.args is not None:
+            for v in list(st_.args.pos) + [x for _, x in st_.args.kwargs]:
+                if isinstance(v, A.Flat):
+                    d |= {int(p.text[1:]) for p in A.walk_prims(v) if isinstance(p, A.Reg)}
+        out.append(d)
+    return out
+
+
+def verify(p, G, prios, text, v, tag, D=None):
     """Append violations of the C16 statement for program p and its graph G."""
     ops = p.operations
-    D = [deps(o) for o in ops]
+    D = [deps(o) for o in ops] if D is None else D
     n = len(ops)
 
     class _O:
